@@ -146,6 +146,21 @@ func init() {
 		return err != nil && (fmt.Sprint(gBefore) != fmt.Sprint(gAfter) || decBefore != decAfter),
 			fmt.Sprintf("DeleteUser(alice) with its second adapter call failing returned %v; grouping rules before=%v after=%v; Enforce(alice,data1,read) before=%v after=%v", err, gBefore, gAfter, decBefore, decAfter)
 	}
+	// D41 (fixed): with JSON requests enabled enforce() wrote the parsed maps into the caller's request slice
+	// (a data race between concurrent BatchEnforce callers sharing a batch: the stress stage's JSON world)
+	witnesses["D41-json-request-written-into-callers-slice"] = func() (bool, string) {
+		text := strings.Replace(rbacText, "g(r.sub, p.sub)", "g(r.sub.Name, p.sub)", 1)
+		e, err := casbin.NewSyncedEnforcer(mustModel(text))
+		if err != nil {
+			return false, err.Error()
+		}
+		e.EnableAcceptJsonRequest(true)
+		_, _ = e.AddPolicy("alice", "data1", "read")
+		batch := [][]interface{}{{`{"Name": "alice"}`, "data1", "read"}}
+		res, err := e.BatchEnforce(batch)
+		_, still := batch[0][0].(string)
+		return !still, fmt.Sprintf("BatchEnforce(batch) = %v, %v; the caller's batch[0][0] afterwards is a %T", res, err, batch[0][0])
+	}
 	// D20: the filtered file adapter splits lines at raw commas and skips rules shorter than the filter
 	witnesses["D20-filter-quoted-fields"] = func() (bool, string) {
 		dir, _ := os.MkdirTemp("", "d20")
